@@ -10,7 +10,7 @@
 (* A violation is a pair <<property id, formula name>>.  Known findings    *)
 (* (KF) are named structural predicates; when only such a predicate makes  *)
 (* a formula true the monitor reports <<property id, finding id>> in k.    *)
-(* P = [prog, nt, nr, nv, na, fam, base, exact, rinst]; rinst[r] says      *)
+(* P = [prog, nt, nr, nv, na, fam, base, exact, rinst, rown]; rinst[r] says *)
 (* whether resource r is of an instrumented type (the library's own map    *)
 (* resource is not: it cannot report reader/writer use or checker calls).  *)
 (***************************************************************************)
@@ -44,7 +44,8 @@ MonInit(P) ==
    errsExp |-> 0, errSeen |-> FALSE,
    prevRoots |-> {}, clean |-> FALSE, sessOk |-> TRUE,
    aborted |-> FALSE, everFault |-> FALSE, sessBU |-> FALSE,
-   k1risk |-> FALSE,                        \* a bottom-up build of this session started while tasks were stale after a top-down build (K1)
+   k1risk |-> FALSE,
+   midChange |-> FALSE,                     \* a resource changed while this session was open: the session no longer sees one state                        \* a bottom-up build of this session started while tasks were stale after a top-down build (K1)
    changed |-> {}, reported |-> {}, buOk |-> FALSE,   \* C03 domain bookkeeping
    staleTD |-> {},
    lastEv |-> "", lastT |-> 0, lastO |-> NONE, lastReqEnd |-> [t |-> 0, o |-> NONE],
@@ -164,7 +165,7 @@ OnSessStart(P, m, st, e) ==
   R([m EXCEPT !.sessN = @ + 1, !.inSess = TRUE, !.probe = e.probe, !.res0 = st.res, !.roots = <<>>,
               !.execd = [t \in 1..P.nt |-> 0], !.validated = {}, !.build = "none", !.vstk = <<>>, !.nstk = <<>>,
               !.errsExp = 0, !.errSeen = FALSE, !.sessOk = TRUE, !.pend = NoPend, !.exp = NoExp, !.sessBU = FALSE, !.k1risk = FALSE,
-              !.pstk = <<>>], {})
+              !.pstk = <<>>, !.midChange = FALSE], {})
 
 OnRootCall(P, m, st, e) ==
   R([m EXCEPT !.curRoot = e.t, !.build = "td", !.bexecd = {}, !.builds = 0], {})
@@ -172,7 +173,8 @@ OnRootCall(P, m, st, e) ==
 OutputFormula(P, m, st, e, roots2) ==
   LET S == Scratch(P, roots2, m.res0)
       own == Own(P, m, "C01")
-  IN IF S.status = "ok"
+  IN IF m.midChange THEN {}      \* tasks made consistent before the change legitimately keep their results for this session
+     ELSE IF S.status = "ok"
      THEN V(e.o = S.out[e.t], <<own, "output">>)
           \cup V(\A r \in 1..P.nr : S.wtr[r] = 0 \/ st.res[r] = S.res[r], <<own, "written_content">>)
           \cup (IF P.exact /\ P.fam \in {"WF", "IDENT"} /\ ~m.aborted /\ ~m.everFault /\ ~(m.probe /\ m.buOk) /\ m.staleTD = {} /\ ~m.sessBU
@@ -614,7 +616,11 @@ OnSessEnd(P, m, st, e) ==
     R([m EXCEPT !.inSess = FALSE, !.prevRoots = {}, !.clean = FALSE, !.vstk = <<>>, !.nstk = <<>>, !.build = "none", !.probe = FALSE],
       {<<"C11", "store_encodings_disagree">>})
   ELSE
-  LET vRes == V(e.res = [r \in 1..P.nr |-> st.res[r]], <<"INTEGRITY", "resource_log_incomplete">>)
+  LET \* contents at session end vs. the logged mutations: for instrumented resources a difference is a defect of the log;
+      \* for the library's own resources (whose write function reports what it stored) it is the resource that lost or kept data
+      vRes == UNION {IF e.res[r] = st.res[r] THEN {}
+                     ELSE IF P.rinst[r] THEN {<<"INTEGRITY", "resource_log_incomplete">>}
+                     ELSE {<<P.rown[r], "content_differs_from_what_was_written">>} : r \in 1..P.nr}
       vErr == IF e.errs >= 0 THEN V(e.errs = m.errsExp, <<"C18", "reported_error_count">>) ELSE {}
       vTrk == V(e.trk_same, <<"C17", "composite_children_differ">>)
       dt == e.dump.tasks
@@ -639,7 +645,8 @@ OnSessEnd(P, m, st, e) ==
   IN RK(Bump(Bump(m1, "C08"), "C18"), vRes \cup vErr \cup vTrk \cup v08 \cup v06 \cup vOut \cup vEvt, k08)
 
 OnExt(P, m, st, e) ==
-  CASE e.ev = "ext_set" -> R([m EXCEPT !.clean = FALSE, !.changed = @ \cup {e.r}, !.buOk = FALSE], {})
+  CASE e.ev = "ext_set" -> R([m EXCEPT !.clean = FALSE, !.changed = @ \cup {e.r}, !.buOk = FALSE,
+                                        !.midChange = @ \/ m.inSess, !.sessOk = IF m.inSess THEN FALSE ELSE @], {})
     [] e.ev = "fault" -> R([m EXCEPT !.clean = FALSE, !.everFault = TRUE,
                                      !.fault = IF e.on THEN @ \cup {e.r} ELSE @ \ {e.r}], {})
     [] e.ev = "boom_arm" -> R([m EXCEPT !.clean = FALSE, !.boom = <<e.t, e.pc>>], {})
